@@ -274,6 +274,15 @@ def snapshot(o) -> dict:
     return d
 
 
+def owned(snap: dict) -> dict:
+    """what a copy of `snap` must look like: everything as in the source, and the copy owns its atoms and bonds (they name
+    the copy as parent and know their position) — also when the atoms of the source had no live owner"""
+    d = dict(snap)
+    d["atoms"] = [a[:9] + (True, i) for i, a in enumerate(snap["atoms"])]
+    d["bonds"] = [b[:7] + (True,) for b in snap["bonds"]]
+    return d
+
+
 def snap_diff(a: dict, b: dict, ignore=()) -> list[str]:
     out = []
     for k in a:
@@ -418,6 +427,11 @@ def _note_features(m):
     hit("sources")
     if o.n_atoms == 0:
         hit("source:no-atoms")
+    try:
+        if o.n_atoms and any(a.parent is None for a in o.atoms):
+            hit("source:ownerless-atoms")
+    except Exception:
+        pass
     if has_bonds(o):
         pairs = [frozenset((id(b.a1), id(b.a2))) for b in o.bonds]
         if len(pairs) != len(set(pairs)):
@@ -438,7 +452,38 @@ def _note_features(m):
 
 
 def make_source(rng, kind: str, ml, ap: bool = False):
-    return _note_features(_make_source(rng, kind, ml, ap))
+    m = _make_source(rng, kind, ml, ap)
+    if "ownerless" in FORCE or rng.below(100) < 22:
+        m = make_ownerless(rng, m, ml)
+    return _note_features(m)
+
+
+def make_ownerless(rng, m, ml):
+    """a source history after which the atoms (and bonds) of the source have no live owner: `atom.parent` is a weak
+    reference, so (a) a temporary Promolecule built on the same atom objects takes the parent link and dies, or (b) the
+    source is the shallow copy of an object that was dropped"""
+    import copy as _copy
+    import gc
+
+    how = "temp" if "ownerless-temp" in FORCE else "shallow" if "ownerless-shallow" in FORCE else rng.choice(["temp", "shallow"])
+    o = owner(m)
+    if how == "temp":
+        if not o.n_atoms:
+            return m
+        _ = ml.Promolecule(list(o.atoms)).formula      # the temporary adopts the atoms …
+        del _
+        gc.collect()                                    # … and is gone: the atoms belong to nobody
+        return m
+    if clsname(m) == "Conformer":
+        cid = m._conf_id
+        c = _copy.copy(o)
+        del o, m
+        gc.collect()
+        return c[cid]
+    c = _copy.copy(o)
+    del o, m
+    gc.collect()
+    return c
 
 
 def _make_source(rng, kind: str, ml, ap: bool = False):
